@@ -41,6 +41,23 @@ pub fn tokenize(text: &str) -> Vec<(usize, usize)> {
             }
             continue;
         }
+        if c == b'/' && i + 1 < b.len() && b[i + 1] == b'*' {
+            // (nested) block comment: trivia
+            let mut depth = 1;
+            i += 2;
+            while i < b.len() && depth > 0 {
+                if b[i] == b'/' && i + 1 < b.len() && b[i + 1] == b'*' {
+                    depth += 1;
+                    i += 2;
+                } else if b[i] == b'*' && i + 1 < b.len() && b[i + 1] == b'/' {
+                    depth -= 1;
+                    i += 2;
+                } else {
+                    i += 1;
+                }
+            }
+            continue;
+        }
         let start = i;
         if c == b'"' {
             i += 1;
@@ -78,13 +95,38 @@ pub fn tokenize(text: &str) -> Vec<(usize, usize)> {
             while i < b.len() && (b[i].is_ascii_alphanumeric() || b[i] == b'_') {
                 i += 1;
             }
-        } else if c == b'\'' {
-            i += 1;
-            while i < b.len() && (b[i].is_ascii_alphanumeric() || b[i] == b'_') {
+            // float literal: digits . digits
+            if c.is_ascii_digit() && i + 1 < b.len() && b[i] == b'.' && b[i + 1].is_ascii_digit() {
                 i += 1;
+                while i < b.len() && (b[i].is_ascii_alphanumeric() || b[i] == b'_') {
+                    i += 1;
+                }
             }
-            if i < b.len() && b[i] == b'\'' {
-                i += 1;
+        } else if c == b'\'' {
+            // char literal ('x', '\\n', '\\'') or lifetime ('a)
+            let rest = &text[i + 1..];
+            let mut it = rest.chars();
+            match it.next() {
+                Some('\\') => {
+                    // escaped char literal: up to the closing quote
+                    let mut j = i + 2;
+                    if j < b.len() {
+                        j += text[j..].chars().next().map(|c| c.len_utf8()).unwrap_or(1);
+                    }
+                    while j < b.len() && b[j] != b'\'' && b[j] != b'\n' {
+                        j += 1;
+                    }
+                    i = (j + 1).min(b.len());
+                }
+                Some(ch) if rest[ch.len_utf8()..].starts_with('\'') => {
+                    i += 1 + ch.len_utf8() + 1;
+                }
+                _ => {
+                    i += 1;
+                    while i < b.len() && (b[i].is_ascii_alphanumeric() || b[i] == b'_') {
+                        i += 1;
+                    }
+                }
             }
         } else {
             let rest = &text[i..];
